@@ -1,6 +1,7 @@
 """Independent reference implementation of the published rpyc 5.x wire format (values, frames, messages).
 Written from the format description only; imports nothing from rpyc.  `form` selects among the encodings the
-format admits for the same value: "short" (canonical), "l1" (one-byte count wherever legal), "l4" (four-byte count)."""
+format admits for the same value: "short" (canonical), "l1" (one-byte count wherever legal), "l4" (four-byte count); a callable
+is asked afresh at every node (the form then varies inside one value, as any conforming encoder is free to do)."""
 import struct, zlib
 
 IMM = {i: bytes([i + 0x50]) for i in range(-0x30, 0xa0)}
@@ -25,6 +26,10 @@ TUP_TAGS = (0x02, 0x10, 0x11, 0x12, 0x13, 0x14, 0x15)
 
 
 def enc(v, form="short", ext_surrogates=True):
+    if callable(form):
+        every, form = form, form()
+    else:
+        every = form
     t = type(v)
     if v is None: return b"\x00"
     if v is NotImplemented: return b"\x05"
@@ -40,10 +45,10 @@ def enc(v, form="short", ext_surrogates=True):
     # published: text is UTF-8 (strict; pass ext_surrogates=False to insist, as C19's value phase does for the published value domain).
     # ext_surrogates=True (default, for harnesses that build hostile or arbitrary messages) is the repaired tree's extension for text that UTF-8 cannot express
     # (lone surrogates, finding F1): such text is outside the published value domain and is never emitted by a conforming peer
-    if t is str: return b"\x08" + enc(v.encode("utf-8", "surrogatepass" if ext_surrogates else "strict"), form)
-    if t is tuple: return _count(len(v), form, TUP_TAGS) + b"".join(enc(x, form, ext_surrogates) for x in v)
-    if t is frozenset: return b"\x1a" + enc(tuple(v), form, ext_surrogates)
-    if t is slice: return b"\x19" + enc((v.start, v.stop, v.step), form, ext_surrogates)
+    if t is str: return b"\x08" + enc(v.encode("utf-8", "surrogatepass" if ext_surrogates else "strict"), every)
+    if t is tuple: return _count(len(v), form, TUP_TAGS) + b"".join(enc(x, every, ext_surrogates) for x in v)
+    if t is frozenset: return b"\x1a" + enc(tuple(v), every, ext_surrogates)
+    if t is slice: return b"\x19" + enc((v.start, v.stop, v.step), every, ext_surrogates)
     raise TypeError(t)
 
 
